@@ -65,16 +65,21 @@ impl Driver for PwrGroup {
         let small = i % 2 == 0;
         let mut bs = vec![];
         let mut total: u128 = 0;
+        let ht: u64 = if i % 3 == 0 { 5 + rng.next() % 20 } else { 1000 };
+        let mut t: u64 = 5;
+        let mut open_prefix = true;
         for _ in 0..n {
+            t += rng.next() % 8;
+            if t > ht { open_prefix = false; }
             let cap = if small { 1200 } else { E18 / 8 };
             let b = rng.amount(cap); let s = rng.amount(cap);
             let br = match rng.next() % 3 { 0 => E18, 1 => E18 * 9 / 10, _ => E18 - rng.below(E18 / 2) };
             let sr = match rng.next() % 3 { 0 => E18, 1 => E18 + rng.below(E18 / 2), _ => E18 - rng.below(E18 / 2) };
-            total += mulf(b, br) + mulf(s, sr);
-            bs.push(json!({"bsei": b.to_string(), "stsei": s.to_string(), "b_rate": br.to_string(), "s_rate": sr.to_string()}));
+            if open_prefix { total += mulf(b, br) + mulf(s, sr); }
+            bs.push(json!({"bsei": b.to_string(), "stsei": s.to_string(), "b_rate": br.to_string(), "s_rate": sr.to_string(), "time": t}));
         }
         let arrived = match rng.next() % 4 { 0 => total, 1 => total - rng.below(total / 5 + 1), 2 => total - rng.below(total + 1), _ => total + rng.below(50) };
-        json!({"batches": bs, "arrived": arrived.to_string()})
+        json!({"batches": bs, "arrived": arrived.to_string(), "ht": ht})
     }
     fn run(&self, input: &Value) -> Outcome {
         let mut deps = mock_dependencies();
@@ -85,30 +90,38 @@ impl Driver for PwrGroup {
         STATE.save(deps.as_mut().storage, &st).unwrap();
         let mut total: u128 = 0;
         for (i, b) in bs.iter().enumerate() {
-            let h = UnbondHistory { batch_id: (i + 1) as u64, time: 10, bsei_amount: Uint128::new(u(&b["bsei"])), bsei_applied_exchange_rate: dec_atomics(u(&b["b_rate"])),
+            let h = UnbondHistory { batch_id: (i + 1) as u64, time: b["time"].as_u64().unwrap_or(10), bsei_amount: Uint128::new(u(&b["bsei"])), bsei_applied_exchange_rate: dec_atomics(u(&b["b_rate"])),
                 bsei_withdraw_rate: dec_atomics(u(&b["b_rate"])), stsei_amount: Uint128::new(u(&b["stsei"])), stsei_applied_exchange_rate: dec_atomics(u(&b["s_rate"])),
                 stsei_withdraw_rate: dec_atomics(u(&b["s_rate"])), released: false };
-            total += mulf(u(&b["bsei"]), u(&b["b_rate"])) + mulf(u(&b["stsei"]), u(&b["s_rate"]));
             store_unbond_history(deps.as_mut().storage, (i + 1) as u64, h).unwrap();
         }
         let mut dm = deps.as_mut();
-        let res = verif_process_withdraw_rate(&mut dm, 1000, Uint128::new(arrived));
+        let ht = input["ht"].as_u64().unwrap_or(1000);
+        // the batches that must be released: the maximal prefix whose time is <= ht
+        let mut n_due = 0usize;
+        for b in bs.iter() { if b["time"].as_u64().unwrap_or(10) <= ht { n_due += 1; } else { break; } }
+        for b in bs.iter().take(n_due) { total += mulf(u(&b["bsei"]), u(&b["b_rate"])) + mulf(u(&b["stsei"]), u(&b["s_rate"])); }
+        let res = verif_process_withdraw_rate(&mut dm, ht, Uint128::new(arrived));
         let mut c = BTreeMap::new();
         let mut paid: u128 = 0;
         let mut rates = vec![];
         let mut no_gain = true;
+        let mut timelock = true;
         if res.is_ok() {
             for (i, b) in bs.iter().enumerate() {
                 let h = read_unbond_history(deps.as_ref().storage, (i + 1) as u64).unwrap();
+                if h.released && h.time > ht { timelock = false; }
+                if h.released != (i < n_due) { no_gain = false; }
+                if !h.released { rates.push(json!(["-", "-", false])); continue; }
                 paid += mulf(u(&b["bsei"]), h.bsei_withdraw_rate.atomics().u128()) + mulf(u(&b["stsei"]), h.stsei_withdraw_rate.atomics().u128());
                 if arrived <= total {
                     // per token type the loss is shared; a batch's payout never rises on a group loss of both types
                 }
                 rates.push(json!([h.bsei_withdraw_rate.atomics().to_string(), h.stsei_withdraw_rate.atomics().to_string(), h.released]));
-                if !h.released { no_gain = false; }
             }
+            c.insert("pwr#timelock".to_string(), timelock);
             c.insert("pwr#group_solvency".to_string(), paid <= arrived.max(0));
-            c.insert("pwr#all_released".to_string(), no_gain);
+            c.insert("pwr#release_set".to_string(), no_gain);
         }
         c.insert("pwr#ok".to_string(), res.is_ok());
         (c, json!({"paid": paid.to_string(), "arrived": arrived.to_string(), "booked": total.to_string(), "rates": rates}))
